@@ -209,6 +209,12 @@ def build():
         raise GenError("net/client/tsig.rs get_response_impl no longer validates every response")
     defs.append(("client_wrapper_validates_all", "bool", "true"))
 
+    # ---- remove_tsig: original ID written into the message, last additional record dropped
+    rt = re.sub(r"\s+", "", fn_body(src, "remove_tsig"))
+    if rt != "message.header_mut().set_id(original_id);message.remove_last_additional();":
+        raise GenError("remove_tsig: unrecognised shape (the original ID must be written into the message header)")
+    defs.append(("remove_tsig_sets_original_id", "bool", "true"))
+
     # ---- ServerSequence: which MAC goes back into the context
     sa = re.sub(r"\s+", "", fn_body(src, "answer_with_fudge", after="impl<K: AsRef<Key>> ServerSequence<K>"))
     if "self.context.apply_signature(mac.as_ref());letmac=self.key().signature_slice(&mac);" in sa:
